@@ -396,6 +396,89 @@ def check_layout(prog: Program, res: Result) -> None:
     res.floor(R, 2)
 
 
+def check_chain(prog: Program, res: Result) -> None:
+    """Channel bookkeeping of the encoder/decoder construction.
+    (conv)  every DEFINING width int(filters * filters_rate**k) in unet.py / encoder_decoder.py uses the same conversion
+            (plain int truncation); a site that rounds instead disagrees by one channel with its neighbour whenever the
+            product has a fractional part >= .5 (non-integral filters_rate).
+    (prev)  in the Encoder's block loops the in_channels of block k is the filters of block k-1: the value used for
+            k > 0 is a variable that still holds the PREVIOUS iteration's width when the block is built.
+    (min)   Model.__init__ measures head positions from the finest decoder level: min over the head strides AND the
+            backbone's own output_stride."""
+    R = "C14-chain"
+    n_conv = 0
+    for mod in ("sleap_nn.architectures.encoder_decoder", "sleap_nn.architectures.unet"):
+        for fi in prog.all_functions():
+            if fi.module.name != mod:
+                continue
+            for c in walk_function(fi.node):
+                if not (isinstance(c, ast.Call) and isinstance(c.func, ast.Name) and c.func.id in ("int", "round") and len(c.args) >= 1):
+                    continue
+                par = getattr(c, "_parent", None)
+                if isinstance(par, ast.Call) and isinstance(par.func, ast.Name) and par.func.id in ("int", "round"):
+                    continue  # inner call of int(round(...)): judged at the outer one
+                inner = c.args[0]
+                kinds = [c.func.id]
+                while isinstance(inner, ast.Call) and isinstance(inner.func, ast.Name) and inner.func.id in ("int", "round") and inner.args:
+                    kinds.append(inner.func.id)
+                    inner = inner.args[0]
+                is_width = isinstance(inner, ast.BinOp) and isinstance(inner.op, ast.Mult) and any(isinstance(x, ast.BinOp) and isinstance(x.op, ast.Pow) and "filters_rate" in norm(x.left) for x in ast.walk(inner)) \
+                    and "filters" in norm(inner.left if not isinstance(inner.left, ast.BinOp) else inner.right)
+                if not is_width:
+                    continue
+                n_conv += 1
+                res.touch(fi)
+                res.ob(R, kinds == ["int"], fi.qualname, f"width by truncation: {short(c, 50)}",
+                       f"`{short(c, 70)}` converts the width with {'('.join(kinds)}(...) while the other layers truncate with int(...): for a non-integral filters_rate the two "
+                       "sides of a connection disagree by one channel and the forward pass raises", f"{fi.module.relpath}:{c.lineno}")
+    res.ob(R, n_conv >= 8, "sleap_nn.architectures", "width computations found", f"only {n_conv} width computations found", "")
+    # (prev)
+    enc = prog.cls("sleap_nn.architectures.encoder_decoder:Encoder").methods["__init__"]
+    res.touch(enc)
+    n_prev = 0
+    for lp in [n for n in walk_function(enc.node) if isinstance(n, ast.For)]:
+        for c in ast.walk(lp):
+            if not isinstance(c, ast.Call):
+                continue
+            kw = {k.arg: k.value for k in c.keywords}
+            if "in_channels" not in kw or "filters" not in kw or not isinstance(kw["filters"], ast.Name):
+                continue
+            F = kw["filters"].id
+            ic = kw["in_channels"]
+            if not isinstance(ic, ast.IfExp):
+                continue
+            n_prev += 1
+            E = ic.orelse
+            st = astq_stmt(c)
+            ok = isinstance(E, ast.Name) and E.id != F
+            if ok:
+                fdefs = [s_ for s_ in lp.body if isinstance(s_, ast.Assign) and norm(s_.targets[0]) == F]
+                edefs = [s_ for s_ in lp.body if isinstance(s_, ast.Assign) and norm(s_.targets[0]) == E.id]
+                ok = len(fdefs) == 1 and len(edefs) == 1
+                if ok:
+                    ev = edefs[0].value
+                    last = ev.orelse if isinstance(ev, ast.IfExp) else ev
+                    before_f = edefs[0].lineno < fdefs[0].lineno and norm(last) == F
+                    after_block = edefs[0].lineno > st.lineno and norm(ev) == F
+                    ok = before_f or after_block
+            res.ob(R, ok, enc.qualname, f"block k takes the width of block k-1 as in_channels: {short(ic, 50)}",
+                   f"`in_channels={short(ic, 60)}`: for k > 0 this is not the previous block's width (`{F}` is already this block's own width): the convolution expects "
+                   "channels the previous block does not deliver", f"{enc.module.relpath}:{c.lineno}")
+    res.ob(R, n_prev >= 2, enc.qualname, "stem and down-block loops chain their widths", f"only {n_prev} chained block constructions found", enc.where)
+    # (min)
+    mi = prog.cls("sleap_nn.architectures.model:Model").methods["__init__"]
+    uses = [c for c in walk_function(mi.node) if isinstance(c, ast.Call) and isinstance(c.func, ast.Attribute) and c.func.attr == "index" and c.args and "min" in norm(c.args[0])]
+    res.ob(R, len(uses) >= 1, mi.qualname, "head positions are measured from the minimum stride", "no strides.index(min stride) found", mi.where)
+    for c in uses[:1]:
+        x = astq.norm(astq.expand_at(mi.node, c.args[0], astq_stmt(c)))
+        dep_heads = astq.dep_closure(list(mi.node.body), {"head_configs"})
+        ok = x.startswith("min(") and "backbone_config.output_stride" in x and bool(astq.names_in(c.args[0]) & dep_heads)
+        res.ob(R, ok, mi.qualname, "minimum over the head strides and the backbone's output stride",
+               f"the reference stride is `{x[:100]}`: the backbone's own output_stride is not taken into account, so when the decoder goes finer than every head the head "
+               "convolutions are sized for the wrong decoder level", f"{mi.module.relpath}:{c.lineno}")
+    res.floor(R, 12)
+
+
 def check(prog: Program, res: Result) -> None:
     check_state(prog, res)
     check_pair(prog, res)
@@ -403,6 +486,7 @@ def check(prog: Program, res: Result) -> None:
     check_chan(prog, res)
     check_width(prog, res)
     check_layout(prog, res)
+    check_chain(prog, res)
     res.assumptions.append("spatial shape arithmetic over the configuration grid (Conv2d/Upsample/PatchMerging size rules) is not decided")
 
 
